@@ -323,7 +323,16 @@ class Answerer(object):
                 return "%.2f" % r.choice([0.0, 2000.0, 10000.0, 30000.0])
             if base == "year_end_value_non_roth":
                 return "%.2f" % r.choice([0.0, 16000.0, 44000.0, 120000.0])
-            return "%.2f" % r.choice([0.0, 0.0, 500.0, 4000.0, self.small(6000)])
+            amt = r.choice([0.0, 0.0, 500.0, 4000.0, self.small(6000)])
+            # amounts that are PART of another amount stay within it (the basis in a conversion is not more than the conversion,
+            # next year's share of the contributions not more than the contributions): the form has no floor for such input
+            cap = {"converted_cost_basis": "net_converted", "nondeductible_contributions_next_year": "nondeductible_contributions"}.get(base)
+            if cap is not None:
+                try:
+                    amt = min(amt, float(self.given.get("%s.%s" % (form, cap), "0") or 0))
+                except ValueError:
+                    amt = 0.0
+            return "%.2f" % amt
         if fbase == "8889":
             if base == "archer_msa":
                 return "0.00"
